@@ -119,8 +119,7 @@ def i_EXX(i_, fmap):
 
 def i_LDI(i_, fmap):
     fmap[pc] = fmap[pc] + i_.length
-    dst = fmap(mem(de, 8))
-    fmap[dst] = fmap(mem(hl, 8))
+    fmap[mem(de, 8)] = fmap(mem(hl, 8))
     fmap[de] = fmap[de] + 1
     fmap[hl] = fmap[hl] + 1
     fmap[bc] = fmap[bc] - 1
@@ -138,8 +137,7 @@ def i_LDIR(i_, fmap):
 
 def i_LDD(i_, fmap):
     fmap[pc] = fmap[pc] + i_.length
-    dst = fmap(mem(de, 8))
-    fmap[dst] = fmap(mem(hl, 8))
+    fmap[mem(de, 8)] = fmap(mem(hl, 8))
     fmap[de] = fmap[de] - 1
     fmap[hl] = fmap[hl] - 1
     fmap[bc] = fmap[bc] - 1
